@@ -217,6 +217,9 @@ func (commander *Commander) SaveMeta(ctx context.Context, parameters Parameters,
 			panic(errors.Errorf("unknown target type '%s'", targetType))
 		}
 		verifhook.Yield(ctx, "meta.ready")
+		if parameters.IdempotencyKey != "" {
+			log = log.WithIdempotencyKey(parameters.IdempotencyKey)
+		}
 
 		return executionContext.AppendLog(ctx, log)
 	})
@@ -328,6 +331,9 @@ func (commander *Commander) DeleteMetadata(ctx context.Context, parameters Param
 			panic(errors.Errorf("unknown target type '%s'", targetType))
 		}
 		verifhook.Yield(ctx, "meta.ready")
+		if parameters.IdempotencyKey != "" {
+			log = log.WithIdempotencyKey(parameters.IdempotencyKey)
+		}
 
 		return executionContext.AppendLog(ctx, log)
 	})
